@@ -71,7 +71,17 @@ fn do_call(ep: &Endpoint, kind: Kind, tag: u32) -> Result<u64, String> {
                 let u = VhostUserGpuUpdate { scanout_id: tag, x: LAT[(tag as usize / 16) % 4], y: LAT[(tag as usize / 64) % 4], width: LAT[tag as usize % 4], height: LAT[(tag as usize / 4) % 4] };
                 g.update_dmabuf_scanout(&u).map(|_| tag as u64 + 1000).map_err(|e| format!("{e:?}"))
             }
-            _ => g.set_scanout(&VhostUserGpuScanout { scanout_id: tag, width: 1, height: 1 }).map(|_| tag as u64 + 1000).map_err(|e| format!("{e:?}")),
+            // fire-and-forget: every such operation of the channel in turn (scanout and the three cursor ones)
+            _ => {
+                let pos = VhostUserGpuCursorPos { scanout_id: tag, x: 3, y: 4 };
+                let r = match tag % 4 {
+                    0 => g.set_scanout(&VhostUserGpuScanout { scanout_id: tag, width: 1, height: 1 }),
+                    1 => g.cursor_pos(&pos),
+                    2 => g.cursor_pos_hide(&pos),
+                    _ => g.cursor_update(&VhostUserGpuCursorUpdate { pos, hot_x: 1, hot_y: 2 }, &[0x5au8; 4 * 64 * 64]),
+                };
+                r.map(|_| tag as u64 + 1000).map_err(|e| format!("{e:?}"))
+            }
         },
     }
 }
